@@ -1,7 +1,7 @@
 (* Extraction of the executable models for the correspondence runner.
    ExtrOcamlBasic only: bool, option, unit, prod, list, sumbool/sumor map to OCaml's own types;
    nat, positive, N, Z stay inductive so 2^64 is exact.  No Extract Constant of ours. *)
-From CsProto Require Import Prelude Varint ZigZag Codec RefWire WireStmts Hex Dump Lazy Pool Schema GenMarshal RefMsg GenStmts GenUnmarshal GenLegal History GenNames Dispatch Ext Json.
+From CsProto Require Import Prelude Varint ZigZag Codec RefWire WireStmts Hex Dump Lazy Pool Schema GenMarshal RefMsg GenStmts GenUnmarshal GenLegal GenUAnyDef History GenNames Dispatch Ext Json.
 Require Import ExtrOcamlBasic.
 Extraction Language OCaml.
 Extraction "model.ml"
@@ -9,6 +9,6 @@ Extraction "model.ml"
   estep erun ebytes esize enc_nested dstep drun in_dom
   parse protodump
   lazy_decode_dec lazy_decode_fn lazy_decode_nested observe acc_aliases_input pstep prun pinit
-  vdepth gen_size gen_ops gen_marshal gen_marshal_to ref_decode normalize gen_unmarshal legal_msg no_dup_msgs hstep hinit mutation_fresh msg_at out_names apply_opt default_opts
+  vdepth gen_size gen_ops gen_marshal gen_marshal_to ref_decode normalize gen_unmarshal legal_msg no_dup_msgs no_dup_raw varints_fit hstep hinit mutation_fresh msg_at out_names apply_opt default_opts
   deduce marshal_action unmarshal_action size_action clone_action equal_action reset_action text_action range_ext_action crun
   ext_run marshal_json unmarshal_json jbuild jdefault.
